@@ -51,6 +51,8 @@ META = {
             "Every equivalent stress of every generated tensor is compared with its eigenvalue definition, with its value in a rotated frame and under scaling; signs are judged away from ties only; NaN is never accepted.", "3 C17"),
     "C18": ("exploration", "runtime monitoring: equivariance/invariance relation monitors between analyzer executions (load scaling, cycle scaling, row permutation), exact-data oracle, likelihood-space judgement for optimiser answers",
             "Every generated test series is analysed repeatedly under unit changes and row permutations by all four analyzers; regression analyzers are compared at 1e-9, Nelder-Mead analyzers in parameter OR likelihood space.", "3 C18"),
+    "C19": ("exploration", "runtime monitoring: exactness oracle on generated meshes (linear fields), boundary-set oracle, union-find reference model for hot spots",
+            "Both gradient operators, the mapping, surface detection and hot-spot labelling are run on generated block meshes with hostile id assignments and row orders and compared with closed-form / graph oracles.", "3 C19"),
     "C03": ("exploration", "runtime monitoring: metamorphic relation monitors between executions (refinement, negation, "
             "affine map, NaN insertion, Series index types), sanitizer replays",
             "Relations between pairs of real executions, each with its own counter; ties that rounding may flip are "
